@@ -148,6 +148,10 @@ def gen_spec(rng, slot_index, swarm):
         opts["layerGap"] = rng.choice([30, 40, 100])
     if rng.random() < 0.15:
         opts["dotRadius"] = rng.choice([2, 5])
+    if rng.random() < 0.1:
+        opts["textXOffset"] = rng.choice(["0.3em", "1px"])
+    if rng.random() < 0.1:
+        opts["textYOffset"] = rng.choice(["1em", "0.7em"])
     if rng.random() < 0.25:
         opts["showTicks"] = rng.random() < 0.3
     if rng.random() < 0.2:
@@ -192,6 +196,9 @@ def gen_spec(rng, slot_index, swarm):
             lat["fontsize"] = rng.choice(["10pt", "12pt"])
         if rng.random() < 0.3:
             lat["tickCross"] = True
+        for tk in ("borderThickness", "axisThickness", "tickThickness", "linkThickness"):
+            if rng.random() < 0.12:
+                lat[tk] = rng.choice(["thin", "thick", "ultra thick"])
         if rng.random() < 0.2:
             lat["preamble"] = "\\usepackage{lmodern}"
         opts["latex"] = lat
